@@ -88,6 +88,9 @@ pub enum Op
     Rules { k: usize },
     RmLeaf { path: String },
     Backdate { path: String, val: usize },
+    /// the user (or a disk fault) damages the history file of the rule producing `target`
+    CorruptHistory { target: String },
+    CorruptTable,
 }
 
 impl Op
@@ -109,6 +112,8 @@ impl Op
             Op::Rules { k } => format!("rules({})", k),
             Op::RmLeaf { path } => format!("rm_leaf({})", path),
             Op::Backdate { path, val } => format!("restore_old({},{})", path, val),
+            Op::CorruptHistory { target } => format!("damage_history_of({})", target),
+            Op::CorruptTable => "damage(current_file_states)".to_string(),
         }
     }
 }
@@ -1143,6 +1148,17 @@ pub fn apply(ctx: &Ctx, st: &State, op: &Op, stats: &mut Stats, findings: &mut V
             each(&mut ns, &|fs| user_write(fs, path, v.clone()));
         },
         Op::RmLeaf { path } => each(&mut ns, &|fs| user_remove(fs, path)),
+        Op::CorruptHistory { target } =>
+        {
+            let rules = &sc.variants[st.variant];
+            if let Some(rule) = rules.iter().find(|r| r.targets.contains(target))
+            {
+                let ticket = crate::rule::Rule::new(rule.targets.clone(), rule.sources.clone(), rule.command_lines()).get_ticket().human_readable();
+                let path = format!("{}/{}", HISTORY_DIR, ticket);
+                each(&mut ns, &|fs| user_write(fs, &path, bytes("\u{1}damaged")));
+            }
+        },
+        Op::CorruptTable => each(&mut ns, &|fs| user_write(fs, TABLE_FILE, bytes("\u{1}damaged"))),
         Op::Backdate { path, val } =>
         {
             // the file comes back with a modification time older than anything ruler has seen
